@@ -19,7 +19,7 @@ import (
 // Decided per pattern for ALL strings over graphic ASCII by exploring the
 // product (DFA of the rule's compiled program) x (reference automaton).
 
-var c03Tokens = []string{"||", "|", "*", "^", "a", "B", "z", "1", ".", "/", "?", "+", "(", ")", "[", "]", "{", "}", "\\", "$", "-", "_", "%", ":", "=", "&"}
+var c03Tokens = []string{"||", "|", "*", "^", "a", "B", "z", "1", ".", "/", "?", "+", "(", ")", "[", "]", "{", "}", "\\", "$", "-", "_", "%", ":", "=", "&", "{2}", "{1,2}"}
 
 const c03Source = "http://example.org/"
 
